@@ -1,6 +1,8 @@
 package prop
 
 import (
+	"strings"
+	"os"
 	"encoding/json"
 	"fmt"
 	"time"
@@ -104,6 +106,9 @@ func (c *allChain) Step(dt time.Duration) *rig.BlockRecord {
 			c.run.Count("all-tx-ok", 1)
 		} else {
 			c.run.Count("all-tx-rejected", 1)
+			if strings.Contains(tx.Result.Log, "account sequence mismatch") {
+				c.run.Count("all-tx-rejected:sequence-mismatch", 1)
+			}
 		}
 		for _, m := range tx.Msgs {
 			c.run.Count("msg:"+sdk.MsgTypeURL(m)+okSuffix(tx), 1)
@@ -137,6 +142,9 @@ func (w *pricedCallWorkload) Observe(br *rig.BlockRecord) {
 	for _, tx := range br.Txs {
 		if t, ok := tx.Tag.(*pcTag); ok {
 			w.run.Count("priced-"+t.Kind+okSuffix(tx), 1)
+			if os.Getenv("VERIF_DEBUG") != "" {
+				fmt.Fprintf(os.Stderr, "DBG priced h=%d %s ok=%v %s\n", br.Height, t.Kind, tx.OK(), logBrief(tx))
+			}
 			if t.Kind == "bind" && tx.OK() {
 				w.bound = append(w.bound, t.Acc)
 			}
@@ -151,8 +159,9 @@ type pcTag struct {
 
 const pxSvc = "px"
 
-// Next: define once, then keep trying to bind providers priced in tka and to call them. Whether these succeed
-// depends on the oracle feed "tka-stake" (created by the oracle workload) having a fresh value.
+// Next: define once, then keep binding providers priced in tka, re-pricing bound ones and calling them. Whether
+// these succeed depends on the oracle feed "tka-stake" (created by the oracle workload) having a fresh value.
+// A provider another workload already gave an owner is bound through that owner.
 func (w *pricedCallWorkload) Next(block int) []rig.Tx {
 	r := w.r
 	rng := w.run.Rng
@@ -160,17 +169,32 @@ func (w *pricedCallWorkload) Next(block int) []rig.Tx {
 		w.setup++
 		return []rig.Tx{r.Mk(r.Acc(4), &pcTag{Kind: "define"}, svcDefine(r.Acc(4), pxSvc, svcGenericSchemas))}
 	}
+	ownerOf := func(p *rig.Account) *rig.Account {
+		if o, found := r.K.Service.GetOwner(r.Ctx(), p.Addr); found {
+			if a := findAcc(r, o.String()); a != nil {
+				return a
+			}
+		}
+		return p
+	}
 	var out []rig.Tx
-	if block%3 == 0 && w.nextP < len(r.Accounts) {
+	if block%3 == 0 {
+		if w.nextP >= len(r.Accounts) {
+			w.nextP = 4
+		}
 		p := r.Acc(w.nextP)
+		o := ownerOf(p)
 		already := false
 		for _, b := range w.bound {
 			already = already || b == p
 		}
 		if !already {
-			msg := &servicetypes.MsgBindService{ServiceName: pxSvc, Provider: p.Addr.String(), Deposit: sdk.NewCoins(sdk.NewInt64Coin(rig.BondDenom, 1_000_000)), Pricing: `{"price":"2tka"}`, QoS: 5, Options: "{}", Owner: p.Addr.String()}
-			out = append(out, r.Mk(p, &pcTag{Kind: "bind", Acc: p}, msg))
+			msg := &servicetypes.MsgBindService{ServiceName: pxSvc, Provider: p.Addr.String(), Deposit: sdk.NewCoins(sdk.NewInt64Coin(rig.BondDenom, 1_000_000)), Pricing: `{"price":"2tka"}`, QoS: 5, Options: "{}", Owner: o.Addr.String()}
+			out = append(out, r.Mk(o, &pcTag{Kind: "bind", Acc: p}, msg))
 		} else {
+			// re-pricing a bound provider needs the exchange rate again (minimum deposit in the base denom)
+			msg := &servicetypes.MsgUpdateServiceBinding{ServiceName: pxSvc, Provider: p.Addr.String(), Pricing: fmt.Sprintf(`{"price":"%dtka"}`, 1+rng.Intn(3)), Owner: o.Addr.String()}
+			out = append(out, r.Mk(o, &pcTag{Kind: "update", Acc: p}, msg))
 			w.nextP++
 		}
 	}
